@@ -162,8 +162,10 @@ impl Selector {
                     /* The selector matches if idx == a*n + b, where
                      * n >= 0
                      */
-                    let idx_offset = idx - b;
-                    if *a == 0 {
+                    // Use wider arithmetic: a and b can be anywhere in the i32 range.
+                    let idx_offset = idx as i64 - *b as i64;
+                    let a = *a as i64;
+                    if a == 0 {
                         return idx_offset == 0 && Self::do_matches(&comps[1..], node);
                     }
                     if (idx_offset % a) != 0 {
